@@ -145,6 +145,12 @@ def run(tier):
         for style in ("direct", "fragment", "variant"):
             for strat in ("warn", "deny", "allow"):
                 cases.append({"assign": assign, "fmt": "sdl_ext", "style": style, "strategy": strat, "shift": sum(assign) % 4})
+    # the rules are independent of the other options: once more under rust normalization + skip-none + other-variant
+    for assign in itertools.product((0, 1, 2), repeat=4):
+        for style in ("direct", "variant", "interface"):
+            for strat in ("warn", "deny"):
+                cases.append({"assign": assign, "fmt": "sdl", "style": style, "strategy": strat, "shift": sum(assign) % 4,
+                              "opts": {"normalization": "rust", "skip_none": True, "other_variant": True, "response_derives": "Serialize,Debug,Clone"}})
     # every reason on every field position once more (full reason alphabet on one field)
     for pos in range(4):
         for ri in range(len(REASONS)):
@@ -159,7 +165,7 @@ def run(tier):
         doc, holder, wires, path = make_doc(c["style"], c.get("tset", "A"))
         c["doc"], c["holder"], c["wires"], c["path"] = doc, holder, wires, path
         text = schema.sdl() if c["fmt"] in ("sdl", "sdl_ext") else schema.introspection()
-        opts = dict(DEFAULT_OPTS)
+        opts = dict(DEFAULT_OPTS, **c.get("opts", {}))
         if c["strategy"]:
             opts["deprecation"] = c["strategy"]
         reqs.append(gen_request(text, gql.render_doc(doc), opts, ext="json" if c["fmt"] == "json" else "graphql", inspect=True))
@@ -173,7 +179,7 @@ def run(tier):
     farm = Farm("c14")
     for c, r in zip(cases, resps):
         states += 1
-        label = {"assignment": c["assign"], "format": c["fmt"], "style": c["style"], "strategy": c["strategy"] or "<unset>", "field_types": TYPE_SETS[c.get("tset", "A")],
+        label = {"assignment": c["assign"], "format": c["fmt"], "style": c["style"], "strategy": c["strategy"] or "<unset>", "other_options": c.get("opts", "default"), "field_types": TYPE_SETS[c.get("tset", "A")],
                  "query": gql.render_doc(c["doc"])}
         c["label"] = label
         if r["status"] != "ok":
